@@ -580,7 +580,11 @@ def run_campaign(camp, tier, seed, wd):
         rng2 = random.Random(seed + 12345)
         behaviours = rng2.sample(behaviours, cap)
         sampled = True
-    stimuli = P.to_driver_stimuli(behaviours, camp["palettes"], seed, all_palettes=False,
+    # small campaigns take every palette for every behaviour (no dependence on the seed's rotation); large ones
+    # take one palette per behaviour, rotating with the seed
+    budget = min(cap, 2500) if tier == "quick" else cap
+    allp = len(behaviours) * len(camp["palettes"]) <= budget
+    stimuli = P.to_driver_stimuli(behaviours, camp["palettes"], seed, all_palettes=allp,
                                   tolerant=camp.get("tolerant", False))
     del behaviours
     for s in stimuli:
@@ -610,7 +614,7 @@ def run_campaign(camp, tier, seed, wd):
         del traces
     jtot["fails"] = fails
     summary = {"name": camp["name"], "behaviours_enumerated": total, "behaviours_replayed": len(stimuli),
-               "sampled": sampled, "gen": gstats,
+               "sampled": sampled, "all_palettes_per_behaviour": allp, "gen": gstats,
                "gen_states": sum(g["states"] for g in gstats), "gen_transitions": sum(g["transitions"] for g in gstats),
                "traces": stats["traces"], "judge_states": jtot["states"], "fails": len(fails),
                "gen_s": round(t1 - t0, 1), "replay_s": round(replay_s, 1), "judge_s": round(judge_s, 1)}
